@@ -387,6 +387,25 @@ def run_sim(spec, listeners=(), failpoints=None, device=None, seed_solution=None
             solver = tdgl.TDGLSolver(device, options, applied_vector_potential=avp, terminal_currents=tc,
                                      disorder_epsilon=eps, seed_solution=seed_solution)
             rr.solver = solver
+            if spec.get("rival_solver"):
+                # a second solver object for the same Device, constructed (not run) while the first one is waiting to be run: another
+                # field, pinning toggled; the monitors do not watch it
+                saved_ = rec.listeners
+                rec.listeners = []
+                try:
+                    import copy as _cp
+
+                    o2_ = _cp.copy(options)
+                    o2_.output_file = None
+                    o2_.include_screening = False
+                    if spec["rival_solver"] == "toggle_pinning":
+                        o2_.terminal_psi = None if options.terminal_psi is not None else 0.0
+                    A_ = spec.get("drive", {}).get("A", {})
+                    rr.rival = tdgl.TDGLSolver(device, o2_, applied_vector_potential=float(2.5 * A_.get("B", 0.1)) if A_.get("kind") != "zero" else 0.1,
+                                               terminal_currents=tc if isinstance(tc, dict) else None)
+                finally:
+                    rec.listeners = saved_
+                    rec.solver = solver
             if pre_solve is not None:
                 pre_solve(solver)
                 opt_before = _dc.asdict(options)  # (what the CALLER does to its own options in between is the caller's business)
